@@ -828,6 +828,97 @@ func apiCheckErrors(t *testing.T) {
 	}
 }
 
+// C16: every object member is addressable; dot and bracket notations are equivalent
+func apiJSONEscape(k string) string {
+	var b strings.Builder
+	enc := json.NewEncoder(&b)
+	enc.SetEscapeHTML(false)
+	_ = enc.Encode(k)
+	out := strings.TrimRight(b.String(), "\n")
+	return out[1 : len(out)-1]
+}
+
+func apiSingleQuoteEscape(k string) string {
+	j := apiJSONEscape(k)
+	var b strings.Builder
+	for i := 0; i < len(j); i++ {
+		switch {
+		case j[i] == '\\' && i+1 < len(j) && j[i+1] == '"':
+			b.WriteByte('"')
+			i++
+		case j[i] == '\\' && i+1 < len(j):
+			b.WriteByte(j[i])
+			b.WriteByte(j[i+1])
+			i++
+		case j[i] == '\'':
+			b.WriteString("\\'")
+		default:
+			b.WriteByte(j[i])
+		}
+	}
+	return b.String()
+}
+
+func apiDotEscape(k string) (string, bool) {
+	if k == "" {
+		return "", false
+	}
+	var b strings.Builder
+	for _, r := range k {
+		if r < 0x20 || r == 0x7f {
+			return "", false
+		}
+		if (r >= ' ' && r <= ',') || r == '.' || r == '/' || (r >= ':' && r <= '@') || (r >= '[' && r <= '^') || r == '`' || (r >= '{' && r <= '~') {
+			b.WriteByte('\\')
+		}
+		b.WriteRune(r)
+	}
+	return b.String(), true
+}
+
+func apiCheckKeys(t *testing.T) {
+	keys := []string{"", "a", "b", "ab", "'", "\"", "\\", "a'b", "a\"b", "a\\b", "\\n", "\n", "\\u0041", "A", "\\ud800", "\\'", "'\\", "\\\\", "\\\"",
+		"\u00e9", "\u65e5\u672c", "\U0001F600", "\t", "\r", "\b", "\f", "\x00", "\x1f", "\x7f", " ", "a b", "a.b", "a,b", "$", "@", "*", "[0]", "0", "-1", "a-b", "a_b", "/", "a/b",
+		"(", ")", "()", "f()", "?", "!", "=", "<", ">", "&", "|", "~", "`", "{", "}", "^", "[", "]", ":", ";", "#", "%", "+", "\u2028", "\ufffd", "e\u0301", "\u00a0"}
+	doc := map[string]interface{}{}
+	for i, k := range keys {
+		doc[k] = float64(i)
+	}
+	outer := map[string]interface{}{"w": doc}
+	list := []interface{}{doc}
+	check := func(path string, src interface{}, k string, want float64) bool {
+		apiCount()
+		res, err := Retrieve(path, src)
+		if err != nil || len(res) != 1 || res[0] != want {
+			t.Errorf("REPRODUCED: key %q: %q returns %v, %v; direct lookup gives [%v]", k, path, res, err, want)
+			return false
+		}
+		return true
+	}
+	for i, k := range keys {
+		want := float64(i)
+		sq := "['" + apiSingleQuoteEscape(k) + "']"
+		dq := "[\"" + apiJSONEscape(k) + "\"]"
+		spellings := []string{sq, dq}
+		if d, ok := apiDotEscape(k); ok {
+			spellings = append(spellings, "."+d)
+		}
+		for _, sp := range spellings {
+			if !check("$"+sp, doc, k, want) || !check("$.w"+sp, outer, k, want) || !check("$.."+strings.TrimPrefix(sp, "."), outer, k, want) {
+				return
+			}
+			if !strings.HasPrefix(sp, ".") || true {
+				apiCount()
+				res, err := Retrieve("$[?(@"+sp+" == "+fmt.Sprint(i)+")]", list)
+				if err != nil || len(res) != 1 {
+					t.Errorf("REPRODUCED: key %q inside a filter: %q returns %v, %v", k, "$[?(@"+sp+" == "+fmt.Sprint(i)+")]", res, err)
+					return
+				}
+			}
+		}
+	}
+}
+
 // C02: Parse is total
 func apiSyntaxErrOK(err error) bool {
 	switch err.(type) {
@@ -1028,6 +1119,8 @@ func TestVerifReplay(t *testing.T) {
 		apiCheckParseTotal(t)
 	case "C19":
 		apiCheckParseIndependent(t)
+	case "C16":
+		apiCheckKeys(t)
 	case "C14":
 		apiCheckFunctions(t)
 	case "C15":
